@@ -456,8 +456,37 @@ class CCFG:
     def node(self, i):
         return self.g.nodes[i]["node"]
 
+    @property
+    def params(self):
+        return params_of(self.fn)
+
     def defs_uses(self, n):
-        return [], []
+        if n.id in self._du:
+            return self._du[n.id]
+        d, u = [], []
+        c = n.c
+        if isinstance(c, dict):
+            for x in walk(c):
+                k = x.get("kind")
+                if k == "VarDecl":
+                    init = [y for y in x.get("inner", []) if isinstance(y, dict) and y.get("kind")]
+                    if init and x.get("name"):
+                        d.append(x["name"])
+                elif k in ("BinaryOperator", "CompoundAssignOperator") and (x.get("opcode") == "=" or k == "CompoundAssignOperator"):
+                    l = strip(x["inner"][0])
+                    if l.get("kind") == "DeclRefExpr":
+                        d.append(render(l))
+                        if k == "CompoundAssignOperator":
+                            u.append(render(l))
+                elif k == "UnaryOperator" and x.get("opcode") in ("++", "--"):
+                    l = strip(x["inner"][0])
+                    if l.get("kind") == "DeclRefExpr":
+                        d.append(render(l))
+                        u.append(render(l))
+                elif k == "DeclRefExpr":
+                    u.append(x.get("referencedDecl", {}).get("name"))
+        self._du[n.id] = (d, u)
+        return d, u
 
     def view(self):
         from .cfg import View
